@@ -108,7 +108,7 @@ func init() {
 		spec := &mc.Spec{
 			Level: "exploration",
 			Rule: "family 0: every traced path syscall × pointer kind for each path argument (NULL, unmapped, kernel half, odd, short string, 4095/4096/4097/8192 bytes without NUL, string ending exactly at / crossing into a PROT_NONE page) × dirfd encoding × {soft-ban-all, allow-all} policy, one operation per run; " +
-				"family 1: syscall numbers unknown / negative / with the x32 bit / above 2^32, and unreadable or short open_how; family 2: a fork+thread program where the main process, the child or the thread is SIGKILLed at the k-th tracer step (every Debug call index); family 3: symbolic-link shapes in the work directory (self loop, 2- and 3-cycles, a cycle entered through a directory link, chains of 39/40/41/64 links, '.'-link nesting, a 4000-byte target) × path syscalls (following, non-following, two-path, exec) × policy, the tracer running in a helper process with a 64 MiB stack cap so that its death is observed. " +
+				"family 1: syscall numbers unknown / negative / with the x32 bit / above 2^32, and unreadable or short open_how, every declared open_how size around the field boundaries; family 2: a fork+thread program where the main process, the child or the thread is SIGKILLed at the k-th tracer step (every Debug call index); family 3: symbolic-link shapes in the work directory (self loop, 2- and 3-cycles, a cycle entered through a directory link, chains of 39/40/41/64 links, '.'-link nesting, a 4000-byte target) × path syscalls (following, non-following, two-path, exec) × policy, the tracer running in a helper process with a 64 MiB stack cap so that its death is observed. " +
 				"Oracle: the result is a verdict about the program, never Runner Error, and the run returns within the horizon. distinct = (case, observed status)",
 			Bound:       map[string]any{"pointer_kinds": ptrs, "dirfds": dirfds, "syscalls": len(c15syscalls)},
 			Assumptions: []string{"kill instants are exhaustive at tracer-step granularity (each Debug call of the tracer loop), not at instruction granularity"},
@@ -158,6 +158,11 @@ func init() {
 			case 1:
 				cases := []string{"X 999", "X -1", "X -2", "X 0x40000002 0 0 0", "X 0x40000101 -100 $0 0", "X 0x100000002 $0 0 0", "X 0xffffffff00000101 -100 $0 0",
 					"X 437 -100 $0 @howbad 24", "X 437 -100 $0 @howshort 24", "X 437 -100 $0 @null 24", "X 437 -100 $0 @how0x40/0/0 8", "X 437 -100 $0 @kernel 24"}
+				// every declared size of the open_how structure around its fields (flags 0..8, mode 8..16, resolve 16..24) and beyond
+				for _, sz := range []string{"0", "1", "4", "7", "9", "16", "23", "25", "4096", "-1", "0x100000018"} {
+					cases = append(cases, "X 437 -100 $0 @how0/0/0 "+sz, "X 437 -100 $0 @how0x241/0644/0 "+sz)
+				}
+				cases = append(cases, "X 437 -100 $0 @howshort 4", "X 437 -100 $0 @howshort 0")
 				line := cases[x.Choose(len(cases), "case")]
 				allow := x.Bool("allow-all")
 				x.Note("case", line)
